@@ -33,7 +33,8 @@ type scenario struct {
 	Aggr    bool     `json:"aggregate"`
 	Perturb string   `json:"perturb"` // "", swapK, dupK
 	Seq0    int      `json:"seq0"`
-	PsSplit bool     `json:"ps_split"` // a frame in two PES packets
+	PsSplit bool     `json:"ps_split"`  // a frame in two PES packets
+	PsNoPts bool     `json:"ps_no_pts"` // ... the second one without PTS (continuation)
 }
 
 type frame struct {
@@ -421,7 +422,11 @@ func run(sc scenario) (res []result, compared int, infra error) {
 				es := ref.AnnexB(f.nals)
 				if sc.PsSplit && len(es) > 20 {
 					ps = append(ps, ref.PsPes(0xE0, pts, pts, false, es[:len(es)/2])...)
-					ps = append(ps, ref.PsPes(0xE0, pts, pts, false, es[len(es)/2:])...)
+					if sc.PsNoPts {
+						ps = append(ps, ref.PsPesNoPts(0xE0, es[len(es)/2:])...)
+					} else {
+						ps = append(ps, ref.PsPes(0xE0, pts, pts, false, es[len(es)/2:])...)
+					}
 				} else if len(es) > 60000 {
 					for len(es) > 0 {
 						n := 60000
@@ -808,6 +813,9 @@ func main() {
 					b5 := base
 					b5.PsSplit = true
 					cases = append(cases, b5)
+					b8 := b5
+					b8.PsNoPts = true
+					cases = append(cases, b8)
 				}
 				// arrival perturbations: only for the shorter sequences (the position is what matters)
 				if (src == "rtsp" || src == "ps") && len(sq) <= 1 {
@@ -845,7 +853,7 @@ func main() {
 		r.AddTransitions(int64(len(sc.Seq) + 5))
 		r.AddTraces(1)
 		for _, v := range res {
-			r.Violation(sc.Source+"/"+v.key, fmt.Sprintf("[%s %s+%s@%d seq=%v limit=%d aggr=%v perturb=%s seq0=%d split=%v] %s", sc.Source, sc.Video, sc.Audio, sc.Rate, sc.Seq, sc.Limit, sc.Aggr, sc.Perturb, sc.Seq0, sc.PsSplit, v.what), sc)
+			r.Violation(sc.Source+"/"+v.key, fmt.Sprintf("[%s %s+%s@%d seq=%v limit=%d aggr=%v perturb=%s seq0=%d split=%v/%v] %s", sc.Source, sc.Video, sc.Audio, sc.Rate, sc.Seq, sc.Limit, sc.Aggr, sc.Perturb, sc.Seq0, sc.PsSplit, sc.PsNoPts, v.what), sc)
 		}
 		if compared > 0 {
 			r.Class(fmt.Sprintf("%+v", sc))
